@@ -393,6 +393,22 @@ func (b *Builder) Add(result *benchfmt.Result) {
 	}
 }
 
+// combineCells returns a cell with the values and residues of both a
+// and b. Either may be nil (an experiment without baseline
+// measurements has no denominator cell).
+func combineCells(a, b *Cell) *Cell {
+	if a == nil {
+		return b
+	}
+	if b == nil {
+		return a
+	}
+	return &Cell{
+		Values:   concat(a.Values, b.Values),
+		Residues: union(a.Residues, b.Residues),
+	}
+}
+
 func (b *Builder) newTable() *table {
 	return &table{
 		benchmarks: make(map[benchproc.Key]struct{}),
@@ -535,14 +551,8 @@ func (b *Builder) AllComparisonSeries(existing []*ComparisonSeries, dupeHow int)
 					// fmt.Printf("Augment u:%s,b:%s,ch:%s,cd:%s; cc=%v[n(%d+%d)d(%d+%d)]\n",
 					// 	u.StringValues(), bench.StringValues(), hash.StringValues(), ser.StringValues(),
 					// 	cc, len(cc.Numerator.Values), len(cell.Values), len(cc.Denominator.Values), len(tr.baseline.Values))
-					cc.Numerator = &Cell{
-						Values:   concat(cc.Numerator.Values, cell.Values),
-						Residues: union(cc.Numerator.Residues, cell.Residues),
-					}
-					cc.Denominator = &Cell{
-						Values:   concat(cc.Denominator.Values, tr.baseline.Values),
-						Residues: union(cc.Denominator.Residues, tr.baseline.Residues),
-					}
+					cc.Numerator = combineCells(cc.Numerator, cell)
+					cc.Denominator = combineCells(cc.Denominator, tr.baseline)
 					if cc.Date < dateString {
 						cc.Date = dateString
 					}
